@@ -1316,13 +1316,26 @@ class TaintInterp:
             return seq(el, vt(el) | base, ("sorted", id(e)))
         else:
             el, old_ot = self.iterate(src, fi, e)
+        if key is not None and el is not None and el.kind == "tuple" and len(el.items) == 2 and isinstance(src.oid, tuple) and src.oid and src.oid[0] in ("dict", "counter") \
+                and el.items[0].kind in ("scalar", "const", "node"):
+            # (key, value) pairs of a dictionary: the dictionary's keys are pairwise different.  The key part is marked, so that
+            # a sort key that contains it is seen to tell any two pairs apart.
+            k0 = el.items[0]
+            mark = ("uniquekey", id(e))
+            el = V("tuple", el.t, items=[V(k0.kind, k0.t, k0.elem, k0.ot, mark, k0.items, k0.x), el.items[1]])
+        if key is not None and src.kind == "map" and el is not None and el.kind in ("scalar", "const"):
+            # the keys of a dictionary, visited by iterating it: pairwise different as well
+            el = V(el.kind, el.t, el.elem, el.ot, ("uniquekey", id(e)), el.items, el.x)
         if key is not None:
             # order = key values; ties keep the input order (stable sort)
             kv = self.call_value(key, [el], {}, e, {}, E, fi)
+            if any(getattr(i, "oid", None) == ("uniquekey", id(e)) for i in ([kv] + list(kv.items or []))):
+                return seq(el, tt(kv), ("sorted", id(e)))
             if self._injective_key(key) or self._rank_key(key):
                 # different elements never share a key: the result is ordered by the key values alone
                 return seq(el, tt(kv), ("sorted", id(e)))
-            if kv.kind == "tuple" and el.kind == "node" and any(i.kind == "node" for i in kv.items):
+            el_has_node = el.kind == "node" or (el.kind == "tuple" and any(i.kind == "node" for i in el.items))
+            if el_has_node and (kv.kind == "node" or (kv.kind == "tuple" and any(i.kind == "node" for i in kv.items))):
                 # the key ends in the element itself (a node label, unique): no two keys are equal, the input order plays no part
                 return seq(el, tt(kv), ("sorted", id(e)))
             return seq(el, tt(kv) | old_ot, ("sortedkey", id(e)))
@@ -1417,6 +1430,22 @@ class TaintInterp:
                 return seq(None, E, ("deque", id(e)))
             el, ot = self.iterate(a[0], fi, e)
             return seq(el, ot | pc, ("deque", id(e)))
+        if q == "collections.defaultdict":
+            # a table whose missing entries start as an empty list / set / dict / 0
+            fac = a[0] if a else None
+            kind_ = fac.x[1] if fac is not None and fac.kind == "func" and isinstance(fac.x, tuple) and len(fac.x) > 1 else None
+            kind_ = kind_ if isinstance(kind_, str) else getattr(kind_, "name", None)
+            if kind_ in ("list", "set", "frozenset", "deque", "collections.deque"):
+                return mp(seq(None, E, ("lit", id(e))), E, ("dict", id(e)))
+            if kind_ == "dict":
+                return mp(mp(None, E, ("dict", id(e), "inner")), E, ("dict", id(e)))
+            if kind_ in ("int", "float", "bool", "str"):
+                return mp(sc(), E, ("dict", id(e)))
+            raise AnalysisError(f"taint interpreter: defaultdict with a factory this analysis does not read at {fi.loc(e)}")
+        if q == "itertools.groupby" and a:
+            # runs of equal keys, in the order in which the input is visited
+            el, ot = self.iterate(a[0], fi, e)
+            return seq(tup([sc(tt(el)), seq(el, ot, ("group", id(e)))]), ot | pc, ("groupby", id(e)))
         if q == "collections.Counter":
             if not a:
                 return mp(sc(), E, ("counter", id(e)))
